@@ -401,6 +401,53 @@ def _entry_kind(ctx, b, fl, dst, heap_field):
     return "other:" + expr_str(dst)[:60]
 
 
+def r4_3b(ctx, R):
+    ctx.rule("R4.3b", "the live-task enumeration used by the re-base is complete: the slot map's iter_mut wraps "
+                      "slice::iter_mut over the WHOLE slots slice (no sub-slicing / take / skip), and the iterator's next() "
+                      "leaves its scan loop only by yielding an Occupied payload or when the underlying iterator is exhausted")
+    from lib_flow import iterator_chain, loop_exit_edges
+    sm, slots_field = R.slot_enum[1], R.slot_enum[2]
+    occ, free = R.slot_variants
+    n = 0
+    for b in R.slotmap_methods:
+        if not re.search(r"::iter_mut$", b.path):
+            continue
+        n += 1
+        for rb, e in returned_exprs(ctx, b):
+            ok = False
+            det = expr_str(e)
+            if e[0] == "agg" and e[2]:
+                it = e[2][0]
+                if it[0] == "call" and re.search(r"core::slice::<impl \[T\]>::iter_mut$", it[1] or ""):
+                    chain, src = iterator_chain(it)
+                    names = [c for c, _ in chain]
+                    bad = [c for c in names if c not in ("iter_mut", "get_unchecked_mut", "as_mut", "deref_mut")]
+                    ok = not bad and src[0] == "proj" and src[2][-1] == "." + slots_field
+                    det = "chain %s over %s" % (names, expr_str(src))
+            ctx.ob("R4.3b", b, "iter_mut-covers-all-slots", ok, b.loc(rb), det)
+    ctx.floor("R4.3b", "slot-map-iter_mut", n, 1)
+    m = 0
+    for b in ctx.facts.fn_bodies():
+        if not re.search(r"^<slot_map::\w+<.*> as core::iter::Iterator>::next$", b.path):
+            continue
+        m += 1
+        fl = ctx.flow(b)
+        inner = [(bb, t) for bb, t, fn in b.calls() if fn and not b.is_cleanup(bb) and (fn_name(fn) or "").endswith("::next")]
+        for ibb, it in inner:
+            exits = loop_exit_edges(b, fl, ibb)
+            vf = variant_facts(b, fl)
+            bad = []
+            for a_, b_, is_none in (exits or []):
+                if is_none:
+                    continue
+                # the other legitimate exit: returning Some(payload of Occupied)
+                fs = vf.get(b_, frozenset()) | vf.get(a_, frozenset())
+                if not any(v == occ for (_, v) in fs):
+                    bad.append(b.loc(a_))
+            ctx.ob("R4.3b", b, "scan-stops-only-at-occupied-or-end", exits is not None and not bad, b.loc(ibb), "other exits: %s" % bad)
+    ctx.floor("R4.3b", "slot-iterator-next", m, 1)
+
+
 def r4_4(ctx, R):
     ctx.rule("R4.4", "heap order: Ord::cmp of the order wrapper = usize::cmp(other.index, self.index) (min-heap on a "
                      "max-heap); PartialEq compares index only; PartialOrd = Some(cmp)")
@@ -524,6 +571,7 @@ def run(ctx):
     r4_1(ctx, R, ot)
     r4_2(ctx, R, ot)
     r4_3(ctx, R, ot)
+    r4_3b(ctx, R)
     r4_4(ctx, R)
     r4_5(ctx, R)
     r4_6(ctx, R, ot)
